@@ -47,6 +47,27 @@ def work(item):
         n += 1
         if got == want:
             out.append(f"{key} {op} {d}")
+    # wrapper mutants: the whole body moved into a *decorated* helper (a cache, a wrapper) - the function is then not its
+    # body any more, and the normal form must not see through the decorator
+    if "." not in q and not isinstance(base, ast.AsyncFunctionDef) and not any(isinstance(x, (ast.Yield, ast.YieldFrom)) for x in ast.walk(base)) \
+            and not base.args.vararg and not base.args.kwarg and not base.args.kwonlyargs and len(base.body) <= 12:
+        try:
+            helper = copy.deepcopy(base)
+            helper.name = "_nf_moved_body"
+            helper.decorator_list = [ast.Call(func=ast.Name(id="lru_cache", ctx=ast.Load()), args=[], keywords=[])]
+            outer = copy.deepcopy(base)
+            outer.decorator_list = []
+            outer.body = [ast.Return(value=ast.Call(func=ast.Name(id="_nf_moved_body", ctx=ast.Load()), args=[ast.Name(id=a.arg, ctx=ast.Load()) for a in base.args.args], keywords=[]))]
+            ast.fix_missing_locations(outer)
+            ast.fix_missing_locations(helper)
+            outer = ast.parse(ast.unparse(outer)).body[0]
+            helper = ast.parse(ast.unparse(helper)).body[0]
+            got = alpha.digest(normal_form(outer, alpha.signatures(), helpers={"_nf_moved_body": helper}, in_class=False))
+            n += 1
+            if got == want:
+                out.append(f"{key} WRAP body moved into an lru_cache-decorated helper")
+        except Exception:
+            pass
     return out + [f"#count {n}"]
 
 
